@@ -36,7 +36,47 @@ func (x *Exec) resolveCallee(fr *Frame, st *State, c *ssa.CallCommon) (key strin
 	return "", nil, nil
 }
 
+// call executes a call instruction and then applies the on-call ghost hooks of the contract of
+// the function under verification (direct calls in its own body only).
 func (x *Exec) call(fr *Frame, st *State, ci ssa.CallInstruction) []string {
+	res := x.callInner(fr, st, ci)
+	if fr.depth == 0 && fr.contract != nil && len(fr.contract.OnCall) > 0 {
+		if effs, ok := fr.contract.OnCall[calleeShortName(ci.Common())]; ok {
+			bind := map[string]specVal{}
+			rts := x.resultTypes(ci.Common().Signature())
+			for i, r := range res {
+				if i < len(rts) {
+					bind[fmt.Sprintf("result%d", i)] = specVal{term: r, typ: rts[i]}
+					if len(res) == 1 {
+						bind["result"] = specVal{term: r, typ: rts[i]}
+					}
+				}
+			}
+			for i, a := range ci.Common().Args {
+				if la, isLocal := fr.laddr[a]; isLocal && la != nil {
+					continue
+				}
+				bind[fmt.Sprintf("arg%d", i)] = specVal{term: x.val(fr, st, a), typ: a.Type()}
+			}
+			x.applyGhostEffects(fr, st, effs, "true", bind)
+		}
+	}
+	return res
+}
+
+// calleeShortName: the bare function or method name a call instruction names ("" for calls
+// through function values).
+func calleeShortName(c *ssa.CallCommon) string {
+	if c.IsInvoke() {
+		return c.Method.Name()
+	}
+	if f := c.StaticCallee(); f != nil {
+		return f.Name()
+	}
+	return ""
+}
+
+func (x *Exec) callInner(fr *Frame, st *State, ci ssa.CallInstruction) []string {
 	c := ci.Common()
 	key, fn, bindings := x.resolveCallee(fr, st, c)
 	var args []string
@@ -206,6 +246,7 @@ func (x *Exec) inlineCall(fr *Frame, st *State, fn *ssa.Function, args []string,
 		}
 	}
 	nf.entry = st.clone()
+	nf.entry.objN = x.objCtr
 	x.inlineStack = append(x.inlineStack, fn)
 	exit, res := x.execFunc(nf, st)
 	x.inlineStack = x.inlineStack[:len(x.inlineStack)-1]
@@ -233,6 +274,7 @@ func (x *Exec) callByContract(fr *Frame, st *State, ci ssa.CallInstruction, fc *
 	}
 	env := x.calleeEnv(fr, st, fc, fn, ci.Common(), args, argTypes)
 	pre := st.clone()
+	pre.objN = x.objCtr
 	env.old = pre
 	env.st = st
 	// lets are evaluated in the pre-state
@@ -358,6 +400,22 @@ func (x *Exec) expandModifies(fc *FuncContract, env *SpecEnv) []string {
 					}
 				}
 			}
+		case strings.HasPrefix(m, "reach:"):
+			// reach:<param>: whatever is writable through the argument by static type (for an
+			// interface-typed parameter: the type of the value boxed at the call site)
+			if env != nil {
+				if v, ok := env.ssaArgs[m[6:]]; ok {
+					t := v.Type()
+					if mi, ok := v.(*ssa.MakeInterface); ok {
+						t = mi.X.Type()
+					}
+					keys := map[string]bool{}
+					x.p.effects.typeReach(t, 0, keys, func(*ssa.Function) {}, map[string]bool{})
+					out = append(out, sortedKeys(keys)...)
+				} else {
+					x.unsupp("modifies reach:%s: no such parameter at this call", m[6:])
+				}
+			}
 		case strings.HasPrefix(m, "$"):
 			out = append(out, "G|"+m[1:])
 		case strings.Contains(m, "|"):
@@ -401,9 +459,20 @@ func (x *Exec) calleeEnv(fr *Frame, st *State, fc *FuncContract, fn *ssa.Functio
 			names = append([]string{rn}, hn...)
 		}
 	}
+	var ssaArgs []ssa.Value
+	if c != nil {
+		if c.IsInvoke() {
+			ssaArgs = append(ssaArgs, c.Value)
+		}
+		ssaArgs = append(ssaArgs, c.Args...)
+	}
+	env.ssaArgs = map[string]ssa.Value{}
 	for i := range args {
 		if i < len(names) && names[i] != "" && names[i] != "_" {
 			env.names[names[i]] = specVal{term: args[i], typ: argTypes[i]}
+			if len(ssaArgs) == len(args) {
+				env.ssaArgs[names[i]] = ssaArgs[i]
+			}
 		}
 		env.names[fmt.Sprintf("arg%d", i)] = specVal{term: args[i], typ: argTypes[i]}
 	}
